@@ -109,6 +109,12 @@ class MultiTierCache(Entity):
         # Track access counts for ON_SECOND_ACCESS policy
         self._access_counts: dict[str, int] = {}
 
+        # Bumped whenever a put/delete of the key reaches the backing store or
+        # the key is invalidated, so a read that started earlier does not
+        # promote what it saw before
+        self._write_epochs: dict[str, int] = {}
+        self._invalidate_all_epoch = 0
+
         # Statistics
         self._reads = 0
         self._writes = 0
@@ -176,6 +182,7 @@ class MultiTierCache(Entity):
         """
         self._reads += 1
         self._access_counts[key] = self._access_counts.get(key, 0) + 1
+        epoch = self._epoch(key)
 
         # Check each tier in order
         for tier_idx, tier in enumerate(self._tiers):
@@ -185,8 +192,9 @@ class MultiTierCache(Entity):
                 if value is not None:
                     self._tier_hits[tier_idx] = self._tier_hits.get(tier_idx, 0) + 1
 
-                    # Promote to higher tier if applicable
-                    if tier_idx > 0:
+                    # Promote to higher tier if applicable (not if the key
+                    # was written while the tier read was in flight)
+                    if tier_idx > 0 and self._epoch(key) == epoch:
                         self._maybe_promote(key, value, tier_idx)
 
                     return value
@@ -219,6 +227,7 @@ class MultiTierCache(Entity):
 
         # Write to backing store
         yield from self._backing_store.put(key, value)
+        self._bump_epoch(key)
 
         # Update L1 cache (highest priority)
         if self._tiers:
@@ -253,6 +262,13 @@ class MultiTierCache(Entity):
         # Remove from backing store
         store_existed = yield from self._backing_store.delete(key)
 
+        # A read that missed while the delete was in flight may have cached
+        # the value again: drop it now that the backing store has dropped it
+        self._bump_epoch(key)
+        for tier in self._tiers:
+            if hasattr(tier, "invalidate"):
+                tier.invalidate(key)
+
         # Clean up access tracking
         self._access_counts.pop(key, None)
 
@@ -264,16 +280,24 @@ class MultiTierCache(Entity):
         Args:
             key: The key to invalidate.
         """
+        self._bump_epoch(key)
         for tier in self._tiers:
             if hasattr(tier, "invalidate"):
                 tier.invalidate(key)
 
     def invalidate_all(self) -> None:
         """Clear all cache tiers."""
+        self._invalidate_all_epoch += 1
         for tier in self._tiers:
             if hasattr(tier, "invalidate_all"):
                 tier.invalidate_all()
         self._access_counts.clear()
+
+    def _epoch(self, key: str) -> tuple[int, int]:
+        return (self._invalidate_all_epoch, self._write_epochs.get(key, 0))
+
+    def _bump_epoch(self, key: str) -> None:
+        self._write_epochs[key] = self._write_epochs.get(key, 0) + 1
 
     def _should_promote(self, key: str) -> bool:
         """Check if a key should be promoted to a higher tier."""
